@@ -24,55 +24,55 @@ CHECKS = {
         'Generated grammars (core language with cuts, directives incl. literal-tab regexes, rule parameters, @name+keywords, upper-case and keyword-like rule names, based rules, includes, tokens spelled None/True) x 5 inputs x 2 parse-time settings each, through the wrapper rule, start=<rule> and the default start; equal canonical AST/consumed length or both a parse failure; parseinfo triples compared. Exploration.',
         'the model side is the reference (C01 judges it); failure class/position not compared; CodegenError refusals are skipped and counted', 'DESIGN.md §3 C02'),
     'C03': (
-        'property-based testing: specification-first generation of layered left-recursive grammars; two independent oracles (precedence-climbing evaluator, RefPEG with seed growing) + model-vs-generated differential + termination watchdog; small-scope enumeration of all lexeme strings for 11 family grammars',
-        'Generated precedence tables printed as grammars (direct, aliased either way with either name order, named, optional-prefixed left recursion; right-recursive and unary levels; parentheses) x generated operator/operand strings and near misses, parsed from every level and alias rule; TatSu is judged only where both oracles agree. Exploration with exhaustive sub-spaces (family grammars x all lexeme strings up to 5/7 lexemes).',
+        'property-based testing: specification-first generation of layered left-recursive grammars; two independent oracles (precedence-climbing evaluator, RefPEG with seed growing) + model-vs-generated differential + termination watchdog; small-scope enumeration of all lexeme strings for 13 family grammars',
+        'Generated precedence tables printed as grammars (direct, aliased either way with either name order, named, optional-prefixed left recursion, split levels whose operator alternatives are separate rules with cuts and a prefix-sharing postfix operator, twin levels without a rule common to all cycles; right-recursive and unary levels; parentheses) x generated operator/operand strings and near misses, parsed from every level and alias rule; TatSu is judged only where both oracles agree. Exploration with exhaustive sub-spaces (family grammars x all lexeme strings up to 5/7 lexemes).',
         'trusts agreement of two independent evaluators of mine; unlayered mutual recursion only gets the termination oracle (C16)', 'DESIGN.md §3 C03'),
     'C04': (
         'property-based differential testing: default configuration vs memoization off / perlinememos 0.01..8 / prune on-off / trace / colorize / parseinfo, with counting and rejecting (FailedSemantics) semantics',
-        'Generated grammars wrapped so that the start rule is retried at the same position after backtracking, and left-recursive statement/expression grammars with cuts, x multi-line inputs x 14 setting variants; outcome (AST or failure class) must equal the default; call sets with and without memoization compared. Exploration.',
+        'Generated grammars (a third with @nomemo/@nostak rules) wrapped so that the start rule is retried at the same position after backtracking, and left-recursive statement/expression grammars with cuts, x multi-line inputs x 14 setting variants; outcome (AST or failure class) must equal the default; call sets with and without memoization compared. Exploration.',
         'the default configuration is the reference point (C01/C03 judge it); a timeout without memoization is inconclusive, not a violation', 'DESIGN.md §3 C04'),
     'C05': (
         'property-based testing: cut insertion into generated cut-free grammars; reference oracle RefPEG-with-cut + metamorphic (cuts removed) + locality wrapper',
         'Generated grammars with 1-3 inserted cuts x sentences corrupted right after each passed cut; three oracles (reference; cuts are invisible '
-        'when no failure follows an executed cut; an outer choice still backtracks). Exploration; classes of cut scope are counted in the evidence.',
+        'when no failure follows an executed cut; an outer choice still backtracks), an exhaustive cut-scope template family (inner choice with a cut x group/optional/closure/named/rule/optional-around-closure wrappers x tails x all strings up to 4-5 lexemes), and invariance of every outcome under prune_memos_on_cut / perlinememos. Exploration with an exhaustive sub-space; classes of cut scope are counted in the evidence.',
         REF_NOTE, 'DESIGN.md §3 C05'),
     'C06': (
         'property-based testing: generated grammars x inputs x generated semantics objects; reference oracle RefPEG-with-actions; call-log multiset comparison; exception identity check; model and generated parser',
-        'Generated grammars (with rule parameters, @nomemo) x inputs x semantics {identity, tagging, _default only, mixed, FailedSemantics on a value from the reference trace, raising one of 10 exception classes on such a value}: outcome/AST equal to the reference running the same actions; action calls are a sub-multiset of the memo-free reference\'s with the same support (exact when every rule is @nomemo); a foreign exception reaches the caller as the same object. Exploration.',
+        'Generated grammars (with rule parameters, @nomemo; 15 % layered left-recursive grammars, 5 % rules whose value is a bare scalar 1/True/1.0) x inputs x semantics {identity, tagging, _default only, mixed, FailedSemantics on a value from the reference trace, raising one of 10 exception classes on such a value}: outcome/AST equal to the reference running the same actions; action calls are a sub-multiset of the memo-free reference\'s with the same support (exact when every rule is @nomemo); a foreign exception reaches the caller as the same object. Exploration.',
         REF_NOTE + '; shapes affected by known findings F-C01-a (open-list rule values) and F-C02-a (generated parser name binding) are not judged', 'DESIGN.md §3 C06'),
     'C07': (
         'property-based differential testing: marked plain-AST parse vs asmodel parse (synthesized classes) vs parse with the generated model module\'s classes, lock-step tree walk; own attribute walk vs children()/parent; counting walkers',
-        'Generated grammars with typed rules (unique class names per case, consistent base chains, builtin types, dict-attribute-colliding element names, typed rules inside closures/optionals/named lists) x derived inputs: class name, declared bases, attributes == named elements (or ast == value), builtin conversion; children()/parent agree with an independent attribute walk; DepthFirst/BreadthFirst/PostOrder walkers reach every node; generated-module classes give the same tree. Exploration.',
+        'Generated grammars with typed rules (unique class names per case, consistent base chains, builtin types, dict-attribute-colliding element names, typed rules inside closures/optionals/named lists) x derived inputs: class name, declared bases, attributes == named elements (or ast == value), builtin conversion; children()/parent agree with an independent attribute walk; DepthFirst/BreadthFirst/PostOrder walkers reach every node; generated-module classes give the same tree; a generated parser called with asmodel=True mirrors its own plain AST. Exploration.',
         'the plain-AST parse (through a marking semantics) is the reference for values; declared-but-unset fields of generated classes may be None', 'DESIGN.md §3 C07'),
     'C08': (
         'property-based testing and coverage-guided fuzzing (atheris/libFuzzer) with a validity oracle: Hypothesis unicode texts and mutated seed sentences against ~25 fixed and generated grammars (str, Buffer, generated parser, parseinfo on/off); mutated grammar texts as compile input; exception-type, position/line-info and rendering predicates; 10 s hang watchdog',
-        'Generated texts (weighted alphabet incl. control, non-BMP, unicode digits; mutations and truncations of valid sentences) x grammars built around @int/@uint/@float/@bool/@name, $->, keywords, left recursion, cuts, directives; valid grammar texts with 1-4 syntax-biased edits given to tatsu.compile. Every call returns or raises a tatsu.exceptions type; FailedParse: 0<=pos<=len, info agrees with my splitter, str()/render() return; no RecursionError, no hang. An atheris campaign (quick: 4 000 executions, thorough: 4 campaigns, seeded and empty corpora) drives the same oracle with coverage feedback. Exploration; failures bucketed by (type, innermost tatsu frame).',
+        'Generated texts (weighted alphabet incl. control, non-BMP, unicode digits; mutations and truncations of valid sentences) x grammars built around @int/@uint/@float/@bool/@name, $->, keywords, left recursion, cuts, directives; valid grammar texts with 1-4 syntax-biased edits given to tatsu.compile; generated regular expressions (well formed or not, often nullable, inline flags, look-behinds, huge repeats) in every directive and pattern position, compiled and run; closures/joins whose element and separator can match empty. Every call returns or raises a tatsu.exceptions type; FailedParse: 0<=pos<=len, info agrees with my splitter, str()/render() return; no RecursionError, no hang. An atheris campaign (quick: 4 000 executions, thorough: 4 campaigns, seeded and empty corpora) drives the same oracle with coverage feedback. Exploration; failures bucketed by (type, innermost tatsu frame).',
         'texts containing line separators other than LF/CR/CRLF are not line-checked; hang = 10 s on <= 60 characters (20 s for compile)', 'DESIGN.md §3 C08'),
     'C09': (
         'property-based testing: metamorphic relation over whitespace/comment layouts + reference oracle RefPEG under the effective configuration + layering differential (compile-time < directive < parse-time)',
-        'Generated grammars x configurations (whitespace default/regex/none, nameguard, namechars, ignorecase, comments and eol_comments as directives or settings) x sentences in base/varied/adversarial layouts: outcome(varied)==outcome(base); every layout agrees with the reference; each setting given at any subset of the three layers behaves like the single effective value. Exploration.',
+        'Generated grammars x configurations (whitespace default/regex/none, nameguard, namechars, ignorecase, comments and eol_comments as directives or settings) x sentences in base/varied/adversarial layouts: outcome(varied)==outcome(base); every layout agrees with the reference; each setting given at any subset of the three layers behaves like the single effective value; upper-case start rules; name-character tokens under every namechars setting (process-wide caches are caught by shard-history replay). Exploration.',
         REF_NOTE + '; whitespace/comment patterns are assumed non-nullable; nameguard=False together with namechars is not generated (config.py forces nameguard on)', 'DESIGN.md §3 C09'),
     'C10': (
         'stateful (history-based) differential testing: generated sequences of public API calls executed in a child of a pristine process, each step compared with the same call re-created in another pristine child; model/config immutability invariants; sampled multi-thread runs under a 1e-6 switch interval',
-        'Histories of 3-14 calls (compile with name/asmodel/semantics incl. same-class instances/ignorecase/whitespace, sibling calls that differ in one argument, tatsu.parse, model.parse with start and settings, generated parsers reused after failures, to_python_sourcecode/model, gc) over 8 grammars: every step equals its fresh-process reference; no parse alters the model or a supplied config. 2-8 threads on one shared model equal the sequential results. Exploration.',
+        'Histories of 3-14 calls (compile with name/asmodel/semantics incl. same-class instances/ignorecase/whitespace, sibling calls that differ in one argument, tatsu.parse, model.parse with start and settings, generated parsers reused after failures, to_python_sourcecode/model, gc) over 9 grammars (texts biased to the sentences of each grammar; asmodel on models and generated parsers): every step equals its fresh-process reference; no parse alters the model or a supplied config. 2-8 threads on one shared model equal the sequential results. Exploration.',
         'a child forked from a process that imported tatsu but never called it stands for a fresh interpreter; thread schedules are sampled, not owned', 'DESIGN.md §3 C10'),
     'C11': (
         'property-based testing: generated grammars with an @name rule spliced into choices/closures/lookaheads, keywords in any case; reference oracle RefPEG-with-keywords + collecting-semantics assertion + undecorated-grammar differential + model-vs-generated differential',
-        'Generated grammars x keywords x ignorecase (directive / parse-time / off) x inputs whose identifiers are drawn from keywords, prefixes, suffixes and case variants: the @name rule never hands a keyword to its action; outcomes agree with the reference, with the undecorated grammar when no keyword was seen, and between model and generated parser. Exploration.',
+        'Generated grammars x keywords (1-3, or 9-33 so that the list spans lines) x ignorecase (directive / parse-time / off) x inputs whose identifiers are drawn from keywords, prefixes, suffixes and case variants: the @name rule never hands a keyword to its action; outcomes agree with the reference, with the undecorated grammar when no keyword was seen, and between model and generated parser. Exploration.',
         REF_NOTE, 'DESIGN.md §3 C11'),
     'C12': (
         'exhaustive enumeration of short strings x offsets against an independent line splitter; property-based parseinfo check against RefPEG trace',
         '(a) every string over {a, space, LF, CR} up to length 6 (quick) / 9 (thorough) x every offset x both input classes, exhaustively, plus '
-        'Hypothesis long texts; (b) generated grammars with names/typed rules x laid-out sentences with parseinfo=True: every dict AST and node '
+        'Hypothesis long texts; (b) generated grammars with names/typed rules, @nostak rules and (a third) block + end-of-line comment directives x laid-out sentences with parseinfo=True: every dict AST and node '
         'must carry (rule, pos, endpos) of an invocation in the reference trace that returned it, and the right start line. Exploration with an exhaustive sub-space.',
         'trusts my splitter (LF, CR, CRLF) and RefPEG\'s trace; offset == len(text) only checked for not raising', 'DESIGN.md §3 C12'),
     'C13': (
         'property-based round-trip testing: model -> pretty() -> compile -> structural + behavioural comparison -> pretty() fixpoint; models from compile, JSON reload and g2e (ANTLR) translation; railroads() completion',
-        'Generated full-language grammars (special tokens/patterns/constants incl. multi-line, alerts, meta, $->, directives, keywords, parameters, based rules, decorators) and generated ANTLR grammars: the pretty text compiles, keeps rules/params/bases/decorators/directives/keywords, behaves the same on derived sentences and near misses, is a fixpoint, and railroads() completes. Exploration.',
+        'Generated full-language grammars (special tokens/patterns/constants incl. multi-line and verbose patterns, alerts, meta, $->, directives, keywords, parameters, based rules, rule includes, @override, up to three decorators) and generated ANTLR grammars: the pretty text compiles, keeps rules/params/bases/decorators/directives/keywords, behaves the same on derived sentences and near misses, is a fixpoint, and railroads() completes. Exploration.',
         'parser equality is observed on generated inputs; "consistent track width" is observed as: railroads() completes (the renderer asserts the width of every track it assembles)', 'DESIGN.md §3 C13'),
     'C14': (
         'property-based round-trip testing: model -> {JSON, pickle, generated model source} -> reload -> structural + behavioural comparison; asjson() termination/dumpability on parse results, models and hand-built cyclic structures',
-        'C13\'s full-language grammars with loader-sniffing texts (f{..}, backslash-e-[, {..}, @.., __class__), falsy directive values, single keywords and single rules, reloaded through three routes: same rules/directives/keywords and equal outcomes on derived inputs; asjson() of every parse result/model returns within 5 s and json.dumps accepts it; cycles render as references. Exploration.',
+        'C13\'s full-language grammars with loader-sniffing texts (f{..}, backslash-e-[, {..}, @.., __class__), falsy directive values, single keywords and single rules, reloaded through five routes (JSON, pickle, generated model source; JSON and pickle of a model that has already parsed): same rules/directives/keywords and equal outcomes on derived inputs; asjson() of every parse result/model returns within 5 s and json.dumps accepts it; cycles render as references. Exploration.',
         'parser equality is observed on generated inputs; a constant whose value is None is not judged (indistinguishable from no literal in every serialised form)', 'DESIGN.md §3 C14'),
     'C15': (
         'property-based differential testing (four parsers): shipped bootstrap rules vs shipped bootstrap model vs compiled _tatsu.ebnf vs parser regenerated from it, on generated, hand-written and mutated grammar texts',
@@ -80,11 +80,11 @@ CHECKS = {
         'model equality is structural over public fields plus pretty(); when all four raise the same foreign exception the case is left to C08', 'DESIGN.md §3 C15'),
     'C16': (
         'exhaustive enumeration of small rule graphs + Hypothesis-sampled larger graphs against my own left-call-graph / nullability / cycle analysis; fixed input battery under a recursion limit and watchdog',
-        'All 420 one-rule graphs and all 1764 two-rule single-alternative graphs (exhaustive), plus sampled 2x2, 3-rule and 4-6-rule graphs: GrammarError with left recursion off iff a left-call cycle exists; is_lrec/is_memo exact off-cycle; every cycle guarded; battery of 15 inputs from every rule terminates. Exploration with an exhaustive sub-space.',
+        'All 420 one-rule graphs and all 1764 two-rule single-alternative graphs through the text (exhaustive), the 3.26 million two-rule x two-alternative graphs through directly built models (quick: every 150th, thorough: all), all small graphs with positive-closure prefixes, plus sampled 3-rule and 4-6-rule graphs: GrammarError with left recursion off iff a left-call cycle exists; is_lrec/is_memo exact off-cycle; every cycle guarded; battery of 15 inputs from every rule terminates. Exploration with an exhaustive sub-space.',
         'trusts my graph analysis (written from the statement); unbounded recursion is observed as RecursionError at limit 1500 / 10 s alarm on tiny inputs', 'DESIGN.md §3 C16'),
     'C17': (
         'property-based testing / fuzzing with a monitor oracle: generated Python expression strings evaluated through safeeval and through real parses under sys.addaudithook with frame attribution; static dunder/impure-call predicate; positive differential against plain eval; two-step histories',
-        'Every builtin name called with plausible arguments, dunder/non-dunder attribute chains, lambdas, comprehensions, walrus, dunder-spelling tricks, nested f-string fields and format specs, names shadowed by AST keys, and a safe sub-grammar; ~24k expressions per quick run through the helper and through constants/alerts in real grammars: no file/import/exec/compile/input/os event is attributed to the expression, exit/quit never run, dunder or impure calls are rejected, safe values equal plain eval, rejected text stays text or a TatSu error, names of an earlier parse do not leak. Exploration.',
+        'Every builtin name called with plausible arguments, dunder/non-dunder attribute chains, lambdas, comprehensions, walrus, dunder-spelling tricks, nested f-string fields and format specs, names shadowed by AST keys (also called from nested scopes: lambdas, comprehensions, generator expressions), and a safe sub-grammar; ~24k expressions per quick run through the helper and through constants/alerts in real grammars: no file/import/exec/compile/input/os event is attributed to the expression, exit/quit never run, dunder or impure calls are rejected, safe values equal plain eval, rejected text stays text or a TatSu error, names of an earlier parse do not leak. Exploration.',
         'pure builtins are my explicit list; C-level escapes that raise no audit event would be missed; exit/quit are observed through same-named recorders installed before TatSu builds its builtin table', 'DESIGN.md §3 C17'),
     'C18': (
         'model-based testing with a harness-owned schedule: deterministic executor + replaced waiter event drive the real submission/refill loop; exhaustive depth-first enumeration of all schedules for small payload lists, Hypothesis-drawn schedules beyond, sampled real process pools',
